@@ -295,7 +295,7 @@ class Ctx:
             self.tags[t] += 1
         if isinstance(inp, dict) and isinstance(inp.get("ast"), dict) and inp["ast"].get("$twin"):
             self.tags["hash-colliding-twin-of-previous-model"] += 1
-        if len(self.samples) < 3 and nontrivial:
+        if len(self.samples) < 3 and nontrivial and size_of(inp) < 6000:
             self.samples.append(inp)
 
     def op(self, op, expected, label=None, norm=None):
@@ -397,7 +397,7 @@ def run_check(pid, module, argv):
             if lc.returncode != 0:
                 proof_problems.append({"kind": "proof", "what": f"leanchecker rejected Puan.Props.{pid}", "lean": (lc.stdout + lc.stderr)[-2000:]})
     obligations = len(prop_theorems(pid)[0]) + prop_theorems(pid)[1]
-    discharged = 0 if proof_problems else obligations
+    discharged = 0 if [p_ for p_ in proof_problems if p_.get("kind") == "proof"] else obligations
 
     # 2. correspondence + oracle
     import_puan()
@@ -406,6 +406,7 @@ def run_check(pid, module, argv):
         lcov.start()
     ctx = Ctx(pid, a.tier, a.seed)
     disagreements = []
+    exercise_crash = None
     try:
         if a.replay:
             rp = json.load(open(a.replay))
@@ -441,7 +442,16 @@ def run_check(pid, module, argv):
                     if fn.endswith(".json"):
                         module.do_case(ctx, json.load(open(os.path.join(cdir, fn)))["input"])
                         ctx.tags["corpus"] += 1
-            module.run(ctx)
+            try:
+                module.run(ctx)
+            except (LeanError, subprocess.TimeoutExpired, KeyboardInterrupt, SystemExit):
+                raise
+            except Exception as e:
+                # the harness could not finish exercising the code: on the unchanged tree this never happens (the run is
+                # deterministic per seed), so the code under check now raises or returns something of another shape
+                # where the harness relies on its documented behaviour — the correspondence can no longer be established
+                exercise_crash = {"kind": "correspondence", "what": "exercising the code raised " + type(e).__name__ + ": " + str(e)[:300],
+                                  "input": ctx.cur, "traceback": traceback.format_exc()[-2500:]}
         if ok:
             answers = run_driver([x[0] for x in ctx.ops])
             for (o, exp, inp, label, norm), ans in zip(ctx.ops, answers):
@@ -459,13 +469,21 @@ def run_check(pid, module, argv):
         sys.exit(2)
 
     lcov.stop()
+    if exercise_crash is not None:
+        proof_problems.append(exercise_crash)
+        print("  " + exercise_crash["what"], file=sys.stderr)
 
     # 3. failing-input search when the tie or a proof broke and the oracle saw nothing yet
     search_evals = 0
     if (disagreements or proof_problems) and not ctx.failures and not a.replay:
         for k in range(2):
             sctx = Ctx(pid, a.tier, a.seed * 1000 + k + 1, search=True)
-            module.run(sctx)
+            try:
+                module.run(sctx)
+            except (KeyboardInterrupt, SystemExit):
+                raise
+            except Exception:
+                pass        # the search keeps whatever failures it saw before the code under check raised
             search_evals += sctx.evaluations
             ctx.failures.extend(sctx.failures)
             if sctx.failures:
@@ -490,7 +508,8 @@ def run_check(pid, module, argv):
         first = min(disagreements, key=lambda d: size_of(d["input"])) if disagreements else None
         json.dump({"property": pid, "seed": a.seed, "tier": a.tier,
                    "kind": "correspondence" if disagreements else "proof",
-                   "op": first["op"] if first else None, "input": first["input"] if first else None,
+                   "op": first["op"] if first else None,
+                   "input": first["input"] if first else (exercise_crash["input"] if exercise_crash else None),
                    "impl_output": first["impl_output"] if first else None,
                    "model_output": first["model_output"] if first else None,
                    "n_disagreements": len(disagreements), "proof_problems": proof_problems,
